@@ -16,6 +16,7 @@ import (
 	"encoding/json"
 	"math"
 	"sort"
+	"strconv"
 
 	"github.com/theory/sqljson/path/ast"
 	"github.com/theory/sqljson/path/exec"
@@ -674,14 +675,19 @@ func (e *refEnv) method(n *ast.MethodNode, in any, c rctx) ([]any, rctx, int) {
 		if isNum {
 			return []any{f}, c, eNone
 		}
-		if _, ok := in.(string); ok {
-			e.open = true // string -> number parsing is not modelled
-			return nil, c, eNone
+		if s, ok := in.(string); ok {
+			// which strings are numbers is strconv.ParseFloat's business (as
+			// documented); text that is not a finite number is rejected
+			// suppressibly
+			pf, err := strconv.ParseFloat(s, 64)
+			if err != nil || !finite(pf) {
+				return nil, c, eSupp
+			}
+			return []any{pf}, c, eNone
 		}
-		if jn, ok := in.(json.Number); ok {
-			_ = jn
-			e.open = true // a number outside float64 range: error class differs per method
-			return nil, c, eNone
+		if _, ok := in.(json.Number); ok {
+			// numView declined: a number outside the float64 range
+			return nil, c, eSupp
 		}
 		return nil, c, eSupp
 	case ast.MethodInteger, ast.MethodBigInt:
